@@ -10,6 +10,12 @@ from vp import nmtran_ref as R
 from vp.ir_eval import EvalError, Unbound, ev
 
 
+def to_sympy_expr(e):
+    from vp.ir_eval import to_sympy
+
+    return to_sympy(e)
+
+
 def close(a, b, rtol=1e-9):
     if isinstance(a, bool) or isinstance(b, bool):
         return bool(a) == bool(b)
@@ -19,10 +25,12 @@ def close(a, b, rtol=1e-9):
 
 
 class Mismatch(Exception):
-    def __init__(self, what, detail=None):
+    def __init__(self, what, detail=None, q=None, vals=None):
         super().__init__(what)
         self.what = what
         self.detail = detail
+        self.q = q  # (kind, name) of a numeric quantity, for the conditioning re-check
+        self.vals = vals  # (text value, model value)
 
 
 # =========================================================================================== IR side
@@ -214,11 +222,13 @@ class TextDen:
         key = f"S{comp}"
         if key in st and key in self.pk_names:
             return st[key]
-        if self.names[comp - 1] == "CENTRAL" and "SC" in self.pk_names:
+        # SC is the scale of the central compartment only for the library ADVANs (1-4, 10-12); with a general
+        # ADVAN and $MODEL it is an ordinary user variable
+        if self.rm.advan in R.LIB_NAMES and self.names[comp - 1] == "CENTRAL" and "SC" in self.pk_names:
             return st["SC"]
         return 1.0
 
-    def run_error(self, st, a, t, obs_comp=None):
+    def run_error(self, st, a, t, obs_comp=None, f_value=None):
         st = dict(st)
         rm = self.rm
         for i, v in enumerate(a, 1):
@@ -227,7 +237,7 @@ class TextDen:
         s = self.scale(st, oc)
         if s == 0:
             raise R.RefError("S=0")
-        st["F"] = a[oc - 1] / s
+        st["F"] = a[oc - 1] / s if f_value is None else f_value
         R.exec_code(rm.error, st)
         return st
 
@@ -281,7 +291,7 @@ def synth_record(rng, input_names):
     return rec
 
 
-def compare_parameters(td: TextDen, ird: IRDen, c, prefix=""):
+def compare_parameters(td: TextDen, ird: IRDen, c, prefix="", skip_block_fix=False):
     """Parameters and random-effect structure.  Raises Mismatch."""
     rm = td.rm
     c.hit(prefix + "params")
@@ -308,7 +318,7 @@ def compare_parameters(td: TextDen, ird: IRDen, c, prefix=""):
                     if not close(tb.matrix[i][j], b["matrix"][i][j], 1e-9):
                         raise Mismatch(f"{which} block {k} entry ({i},{j}): text {tb.matrix[i][j]}, model {b['matrix'][i][j]}",
                                        {"text": tb.matrix, "model": b["matrix"]})
-            if not tb.same and bool(tb.fix) != bool(b["fix"]):
+            if not skip_block_fix and not tb.same and bool(tb.fix) != bool(b["fix"]):
                 raise Mismatch(f"{which} block {k} fixedness: text {tb.fix}, model {b['fix']}")
 
 
@@ -343,7 +353,21 @@ def _perms(text_names, ir_names):
         yield m
 
 
-def compare_dynamic(td: TextDen, ird: IRDen, records, rng, K, c, prefix="", dose_info=None):
+def compare_dynamic(td: TextDen, ird: IRDen, records, rng, K, c, prefix="", dose_info=None, f_from_ir=False,
+                    skip_events=False):
+    """See _compare_dynamic.  All evaluations run in 50-digit arithmetic (vp.numctx) so that neither side's
+    rounding decides a verdict; conditioning is probed by perturbing every leaf (inputs and literals)."""
+    from vp.numctx import CTX
+
+    CTX.use_mp()
+    try:
+        return _compare_dynamic(td, ird, records, rng, K, c, prefix, dose_info, f_from_ir, skip_events)
+    finally:
+        CTX.use_float()
+
+
+def _compare_dynamic(td: TextDen, ird: IRDen, records, rng, K, c, prefix="", dose_info=None, f_from_ir=False,
+                     skip_events=False):
     """Sampled comparison of $PK variables, vector field, events and $ERROR variables.
 
     records: list of dicts (data records: column name -> float).  dose_info: optional dict from the harness
@@ -399,6 +423,49 @@ def compare_dynamic(td: TextDen, ird: IRDen, records, rng, K, c, prefix="", dose
             rejected += 1
             c.hit(prefix + "point_rejected_unbound")
             continue
+        # ---- conditioning probe: re-evaluate the reference in 50-digit arithmetic with every leaf (parameter,
+        # eta/eps, data item, amount AND every numeric literal) perturbed independently by <= 1e-13 relative;
+        # a quantity that moves by more than 1e-11 relative amplifies its inputs' rounding by > 100 (cancellation,
+        # a branch about to flip): pharmpy's legitimately rounded constants could then decide the comparison, so the
+        # quantity is not compared at this point
+        unstable = set()
+        from vp.numctx import CTX
+
+        try:
+            prng = rng.__class__(rng.random())
+            pert = lambda x: x * (1 + 1e-13 * prng.uniform(-1, 1))  # noqa: E731
+            CTX.use_mp(1e-13, prng.random())
+            tenv_p = td.env([pert(x) for x in theta], [pert(x) for x in eta], [pert(x) for x in eps],
+                            {k: (pert(v) if k not in ("ID",) else v) for k, v in rec.items()}, t)
+            if has_ode:
+                tpk_p = td.run_pk(tenv_p)
+                a_p = [pert(x) for x in a]
+                tfield_p = td.field(tpk_p, a_p, t)
+                terr_p = td.run_error(tpk_p, a_p, t)
+                CTX.use_mp()
+                if any(not close(x, y, 1e-11) for x, y in zip(tfield, tfield_p)):
+                    rejected += 1
+                    c.hit(prefix + "point_rejected_illconditioned")
+                    continue
+                for st1, st2 in ((tpk, tpk_p), (terr, terr_p)):
+                    for k2, v2 in st1.items():
+                        if k2 in st2 and not isinstance(v2, bool) and not close(v2, st2[k2], 1e-11):
+                            unstable.add(k2)
+            else:
+                tpk_p = td.run_pred(tenv_p)
+                CTX.use_mp()
+                for k2, v2 in tpk.items():
+                    if k2 in tpk_p and not isinstance(v2, bool) and not close(v2, tpk_p[k2], 1e-11):
+                        unstable.add(k2)
+        except (R.RefError, R.RefUnbound):
+            CTX.use_mp()
+            rejected += 1
+            c.hit(prefix + "point_rejected_illconditioned")
+            continue
+        finally:
+            CTX.use_mp()
+        if unstable:
+            c.hit(prefix + "vars_unstable_skipped", len(unstable))
         # ---- IR side
         if not has_ode:
             try:
@@ -409,7 +476,14 @@ def compare_dynamic(td: TextDen, ird: IRDen, records, rng, K, c, prefix="", dose
                 continue
             except Unbound as u:
                 raise Mismatch(f"model statements read undefined symbol {u} where the text evaluates fine")
-            _cmp_vars(td.err_names, tpk, ipk, "$PRED", c, prefix)
+            try:
+                _cmp_vars(td.err_names, tpk, ipk, "$PRED", c, prefix, unstable)
+            except Mismatch as mm:
+                if mm.q is not None and _ir_illconditioned(ird, mm, None, theta, eta, eps, rec, t, a, 0):
+                    rejected += 1
+                    c.hit(prefix + "point_rejected_illconditioned_ir")
+                    continue
+                raise
             judged += 1
             continue
         # ---- vector field under every surviving compartment alignment
@@ -419,7 +493,7 @@ def compare_dynamic(td: TextDen, ird: IRDen, records, rng, K, c, prefix="", dose
             amounts = {m[i]: a[i] for i in range(td.n)}
             try:
                 ipk = ird.run_pk(ienv, amounts)
-                _cmp_vars(td.pk_names, tpk, ipk, "$PK", None, prefix)
+                _cmp_vars(td.pk_names, tpk, ipk, "$PK", None, prefix, unstable)
             except EvalError:
                 last_err = "reject"
                 break
@@ -441,7 +515,8 @@ def compare_dynamic(td: TextDen, ird: IRDen, records, rng, K, c, prefix="", dose
             for i in range(td.n):
                 if not close(tfield[i], ifield[m[i]], 1e-8):
                     bad = Mismatch(f"d/dt of compartment {i+1} ({td.names[i]} ~ {m[i]}): text {tfield[i]}, model {ifield[m[i]]}",
-                                   {"theta": theta, "eta": eta, "a": a, "record": rec})
+                                   {"theta": theta, "eta": eta, "a": a, "record": rec},
+                                   q=("field", m[i]), vals=(tfield[i], ifield[m[i]]))
                     break
             if bad is not None:
                 last_err = bad
@@ -461,14 +536,23 @@ def compare_dynamic(td: TextDen, ird: IRDen, records, rng, K, c, prefix="", dose
                     ierr = dict(ierr)
                     first = next(iter(ird.dv_map))
                     ierr[first] = ierr[sel[0]]
+            terr_use = terr
+            if f_from_ir:
+                # delta check of the F link: force the text side's F to the model's value
+                try:
+                    terr_use = td.run_error(tpk, a, t, f_value=ierr.get("F"))
+                except (R.RefError, R.RefUnbound):
+                    last_err = "reject"
+                    break
             try:
-                _cmp_vars(["F"] + td.err_names, terr, ierr, "$ERROR", None, prefix)
+                _cmp_vars(["F"] + td.err_names, terr_use, ierr, "$ERROR", None, prefix, unstable)
             except Mismatch as mm:
                 last_err = mm
                 continue
             # events
             try:
-                _cmp_events(td, ird, tpk, ipk, m, dose_info)
+                if not skip_events:
+                    _cmp_events(td, ird, tpk, ipk, m, dose_info)
             except Mismatch as mm:
                 last_err = mm
                 continue
@@ -478,6 +562,11 @@ def compare_dynamic(td: TextDen, ird: IRDen, records, rng, K, c, prefix="", dose
             c.hit(prefix + "point_rejected_ir")
             continue
         if not ok_perms:
+            if isinstance(last_err, Mismatch) and last_err.q is not None and _ir_illconditioned(
+                    ird, last_err, surviving[-1], theta, eta, eps, rec, t, a, td.n):
+                rejected += 1
+                c.hit(prefix + "point_rejected_illconditioned_ir")
+                continue
             raise last_err
         surviving = ok_perms
         c.hit(prefix + "pk_vars", len(td.pk_names))
@@ -490,10 +579,50 @@ def compare_dynamic(td: TextDen, ird: IRDen, records, rng, K, c, prefix="", dose
     return judged
 
 
-def _cmp_vars(names, tstore, istore, where, c, prefix):
+def _ir_illconditioned(ird, mm, m, theta, eta, eps, rec, t, a, n):
+    """Second guard, on the model side: re-evaluate the mismatching quantity of the model with every leaf and
+    literal perturbed by <= 1e-13 (50-digit arithmetic).  If it moves by more than 1 % of the observed disagreement
+    the disagreement is within the amplification of the model's own rounded constants: the point is not judged."""
+    import random as _r
+
+    from vp.numctx import CTX
+
+    prng = _r.Random(12345)
+    pert = lambda x: x * (1 + 1e-13 * prng.uniform(-1, 1))  # noqa: E731
+    kind, name = mm.q
+    try:
+        vals = []
+        for probe in (False, True):
+            if probe:
+                CTX.use_mp(1e-13, 99)
+                env = ird.env([pert(x) for x in theta], [pert(x) for x in eta], [pert(x) for x in eps],
+                              {k: (pert(v) if k != "ID" else v) for k, v in rec.items()}, t)
+                aa = [pert(x) for x in a]
+            else:
+                CTX.use_mp()
+                env = ird.env(theta, eta, eps, rec, t)
+                aa = a
+            amounts = {m[i]: aa[i] for i in range(n)} if m else None
+            ipk = ird.run_pk(env, amounts)
+            if kind == "field":
+                vals.append(ird.field(ipk, amounts)[name])
+            elif kind == "$ERROR":
+                vals.append(ird.run_error(ipk, amounts)[name])
+            else:
+                vals.append(ipk[name])
+    except Exception:
+        return False
+    finally:
+        CTX.use_mp()
+    move = abs(vals[0] - vals[1])
+    gap = abs(mm.vals[0] - mm.vals[1])
+    return gap <= move * 100
+
+
+def _cmp_vars(names, tstore, istore, where, c, prefix, unstable=()):
     n = 0
     for name in names:
-        if "(" in name:
+        if "(" in name or name in unstable:
             continue
         if name not in tstore:
             continue  # not assigned on this path in the text
@@ -506,7 +635,7 @@ def _cmp_vars(names, tstore, istore, where, c, prefix):
         tv, iv = tstore[name], istore[name]
         n += 1
         if not close(tv, iv, 1e-9):
-            raise Mismatch(f"{where} variable {name}: text {tv}, model {iv}")
+            raise Mismatch(f"{where} variable {name}: text {tv}, model {iv}", q=(where, name), vals=(tv, iv))
     if c is not None:
         c.hit(prefix + "vars", n)
 
@@ -555,3 +684,54 @@ def _cmp_events(td, ird, tpk, ipk, m, dose_info):
         for i in range(td.n):
             if (i + 1) not in dose_info and iev[m[i]]["doses"]:
                 raise Mismatch(f"model has doses into compartment {i+1} ({m[i]}) but no dose record targets it")
+
+
+# =========================================================================================== helpers for checks
+def records_of(model, limit=80):
+    """Data records of a model's dataset: dose and observation records interleaved, numeric columns only."""
+    df = model.dataset
+    if df is None:
+        return []
+    try:
+        amt = model.datainfo.typeix["dose"][0].name
+    except Exception:
+        amt = "AMT" if "AMT" in df.columns else None
+    recs = []
+    nd = no = 0
+    for row in df.head(600).to_dict("records"):
+        r = {k: float(v) for k, v in row.items() if isinstance(v, (int, float))}
+        is_dose = amt is not None and r.get(amt, 0) != 0
+        if is_dose and nd < limit // 2:
+            recs.append(r)
+            nd += 1
+        elif not is_dose and no < limit // 2:
+            recs.append(r)
+            no += 1
+        if nd + no >= limit:
+            break
+    return recs
+
+
+def dose_info_from_records(td: TextDen, records, amt="AMT"):
+    """Text-side dose events by NM-TRAN rules: compartment = CMT item if present and non-zero, else the default
+    dose compartment; kind from the RATE item."""
+    rm = td.rm
+    names = set()
+    for n in rm.input_names:
+        if n is None:
+            continue
+        names |= set(n) if isinstance(n, tuple) else {n}
+    has_cmt = "CMT" in names
+    has_rate = "RATE" in names
+    info = {}
+    for r in records:
+        if not r.get(amt, 0):
+            continue
+        comp = int(r["CMT"]) if has_cmt and r.get("CMT", 0) else R.default_dose_comp(rm)
+        if has_rate:
+            v = r.get("RATE", 0)
+            kind = "bolus" if v == 0 else ("Rn" if v == -1 else ("Dn" if v == -2 else "data_rate"))
+        else:
+            kind = "bolus"
+        info.setdefault(comp, set()).add(kind)
+    return info
